@@ -98,7 +98,16 @@ fn check_reader(name: &'static str, c: &Case) -> Verdict {
         }
         Damage::Reframe(seed) => {
             if drv.is_bgzf() {
-                if let Some(b) = crate::oracle::bgzf_walk::reframed(&bytes, *seed) {
+                use crate::oracle::{bgzf_walk, framing};
+                // BAM, every other seed: NUL padding behind the header text first (legal per
+                // SAMv1 §4.2, never written by noodles; the readers have a branch for it)
+                if name.starts_with("bam") && seed % 2 == 0 {
+                    let k = 1 + (*seed as usize / 2) % 300;
+                    if let Some(p) = bgzf_walk::walk(&bytes).ok().map(|m| bgzf_walk::concat(&m)).and_then(|s| framing::bam_with_padded_header(&s, k)) {
+                        bytes = bgzf_walk::build_file(&p.chunks(60_000).map(|c| c.to_vec()).collect::<Vec<_>>(), 1, true);
+                    }
+                }
+                if let Some(b) = bgzf_walk::reframed(&bytes, *seed) {
                     bytes = b;
                 }
             }
